@@ -160,6 +160,11 @@ def replay(ctx, payload):
         m, s = core.run_model(ctx, [payload["case"]])[0]
         print("cli:  ", r[:1500]); print("model:", m[:1500]); print("spec: ", s[:1500])
         return 0 if core.res_eq(r, m) and (s == "-" or core.res_eq(r, s)) else 1
+    if kind == "reads-cli":
+        r = reads_via_cli(ctx, payload["case"])
+        m, s = core.run_model(ctx, [payload["case"]])[0]
+        print("cli:  ", r[:1500]); print("model:", m[:1500]); print("spec: ", s[:1500])
+        return 0 if core.res_eq(r, m) and (s == "-" or core.res_eq(r, s)) else 1
     if kind == "map-cli":
         r = map_via_cli(ctx, payload["case"])
         m, s = core.run_model(ctx, [payload["case"]])[0]
@@ -1265,6 +1270,19 @@ def c17_cli(ctx, broken):
     nontriv += pe - pipe_kinds["no-entry"]
     if pv:
         return viol(pv.pop("what"), **pv)
+    # 1c. regression: a split k-mer with self-complementary arms (CGTCG) on the bubble of an isolated
+    # SNP used to store its edges twice, a fake branching that used up the path depth (-d 0/1 missed the SNP)
+    d = fresh_dir(ctx, "c17pal")
+    pal = ["GAATAAGCGTCGGAGGCGAAG", "GAATAAGCGTAGGAGGCGAAG"]
+    for i, sq in enumerate(pal):
+        write_fasta(os.path.join(d, f"p{i}.fa"), [sq])
+    ska(["build", "-o", os.path.join(d, "x"), "-k", "5", os.path.join(d, "p0.fa"), os.path.join(d, "p1.fa")], d)
+    for depth in ("0", "1", "4"):
+        code, out, err = ska(["lo", os.path.join(d, "x.skf"), os.path.join(d, "o" + depth), "-d", depth], d)
+        evals += 1
+        got = lo_free_canon(os.path.join(d, "o" + depth))["snps"] if code == 0 else None
+        if got != ["CA"]:
+            return viol("isolated SNP next to a self-complementary split k-mer not called exactly once", depth=depth, k=5, samples=pal, observed=got)
     # 2. planted isolated-SNP families
     nfam = 200 if thorough else 16
     done = tries = 0
@@ -1303,7 +1321,9 @@ def c17_cli(ctx, broken):
         code, out, err = ska(["build", "-o", os.path.join(d, "x"), "-k", str(k)] + files, d)
         # complete samples: any -m (incl. 0: "no missing data allowed") must give the same truth
         mval = rnd.choice(["0", "0.1", "0.25", "1"])
-        args = ["lo", os.path.join(d, "x.skf"), os.path.join(d, "o"), "--threads", str(threads), "-m", mval] + (["-r", os.path.join(d, "ref.fa")] if use_ref else [])
+        # isolated SNPs are single bubbles: any path depth, also 0, must find them
+        depth = rnd.choice(["0", "1", "4", "4"])
+        args = ["lo", os.path.join(d, "x.skf"), os.path.join(d, "o"), "--threads", str(threads), "-m", mval, "-d", depth] + (["-r", os.path.join(d, "ref.fa")] if use_ref else [])
         code, out, err = ska(args, d)
         evals += 1
         if code != 0:
@@ -1731,6 +1751,67 @@ def make_map_cli(prop, nquick, nthorough):
                 "samples": samples}
     fn.__name__ = f"map_cli_{prop}"
     return fn
+
+
+def reads_via_cli(ctx, line):
+    """one `reads` case through `ska build -f list --min-count .. --min-qual .. --qual-filter ..`
+    and `ska nk --full-info`: the dictionary as `key:letter,...` sorted by key"""
+    kv = kvs(line)
+    k, rc = int(kv["k"]), kv["rc"] == "1"
+    d = fresh_dir(ctx, "readscli")
+    paths = []
+    for key in ("r1", "r2"):
+        reads = [] if kv[key] in ("~", "") else kv[key].split(",")
+        text = "".join(f"@r{i}\n{r.split(':')[0]}\n+\n{''.join(chr(ord(q) - 65 + 33) for q in r.split(':')[1])}\n" for i, r in enumerate(reads))
+        p = os.path.join(d, key + ".fastq")
+        open(p, "w").write(text)
+        paths.append(p)
+    lst = os.path.join(d, "list.tsv")
+    open(lst, "w").write(f"s\t{paths[0]}\t{paths[1]}\n")
+    qf = {"none": "no-filter", "middle": "middle", "strict": "strict"}[kv["qf"]]
+    args = ["build", "-o", os.path.join(d, "x"), "-k", str(k), "--min-count", kv["mc"], "--min-qual", kv["mq"],
+            "--qual-filter", qf, "-f", lst] + ([] if rc else ["--single-strand"])
+    code, out, err = ska(args, d)
+    if code != 0:
+        return classify_stderr(err)
+    code, out, err = ska(["nk", "--full-info", os.path.join(d, "x.skf")], d)
+    info = parse_nk(out)
+    items = sorted((key, cells[0]) for key, cells in info["rows"].items())
+    return ",".join(f"{a}:{b}" for a, b in items) or "~"
+
+
+def c12_cli(ctx, broken):
+    """the read cases through the binary: min-count / min-qual / qual-filter as command-line options,
+    both integer widths through the lib.rs dispatch"""
+    n = 300 if ctx.tier == "thorough" else 40
+    cases = [c for c in core.gen_cases("C12", "quick", ctx.seed + 31337) if c.startswith("reads ")]
+    rnd = random.Random(ctx.seed * 13 + 7)
+    rnd.shuffle(cases)
+    wide = [c for c in cases if " w=128 " in c and int(kvs(c)["k"]) > 31]
+    narrow = [c for c in cases if " w=64 " in c]
+    cases = wide[:n // 2] + narrow[:n - n // 2]
+    model = core.run_model(ctx, cases)
+    evals = nontriv = 0
+    opts = {}
+    samples = []
+    for c, (m, s) in zip(cases, model):
+        kv = kvs(c)
+        if kv["mc"] == "0":
+            continue     # the command line refuses --min-count 0
+        r = reads_via_cli(ctx, c)
+        evals += 1
+        key = f"mc{kv['mc']}-{kv['qf']}"
+        opts[key] = opts.get(key, 0) + 1
+        if ":" in r:
+            nontriv += 1
+        if len(samples) < 1:
+            samples.append({"case": c[:300], "cli_result": r[:200]})
+        if not (core.res_eq(r, m) and (s == "-" or core.res_eq(r, s))):
+            return {"summary": {"evaluations": evals, "nontrivial": nontriv},
+                    "violation": {"kind": "reads-cli", "case": c, "cli": r[:3000], "model": m[:3000], "spec": s[:3000]}}
+    return {"summary": {"evaluations": evals, "nontrivial": nontriv, "options": opts,
+                        "what": "read cases through `ska build -f` with --min-count/--min-qual/--qual-filter and `ska nk --full-info`, k <= 31 and k >= 33, vs model and counting specification"},
+            "samples": samples}
 
 
 def make_hist_cli(prop, nquick, nthorough, gen_prop=None):
